@@ -56,6 +56,29 @@ func coq(k *Case) string {
 	)
 }
 
+// suite timer: the deadline of the timer the roll-over goroutine re-arms after
+// each pass, against the model's next_tick (= window end after the Tick)
+func coqTimer(k *Case) string {
+	var nexts []string
+	for _, e := range k.Events {
+		if e.K == "pass" {
+			if e.NextTick == 0 {
+				nexts = append(nexts, "None")
+			} else {
+				nexts = append(nexts, c.Some(c.Z(e.NextTick)))
+			}
+		}
+	}
+	return c.Tuple(
+		c.Tuple(c.Z(k.Quota), c.Z(k.W), c.Z(k.QSize)),
+		c.Z(k.QueueT0),
+		c.MapList(k.Actions, coqAct),
+		c.List(nexts),
+	)
+}
+
+var timerSeen int
+
 func record(o *c.Out, suite string, k *Case) {
 	passWithWaiter, refusal, unparked, rolled := false, false, false, false
 	waiting := 0
@@ -98,6 +121,9 @@ func record(o *c.Out, suite string, k *Case) {
 				}
 			}
 		}
+	} else if suite == "timer" {
+		term = coqTimer(k)
+		nontrivial = rolled
 	} else {
 		term = coq(k)
 	}
@@ -136,6 +162,14 @@ func record(o *c.Out, suite string, k *Case) {
 		}
 		if hitsSeen[h.Signature] <= 40 { // the smallest of these becomes the replay; totals are in the distribution
 			o.Hit(h)
+		}
+	}
+	// every third history with a pass is also handed to the timer tie
+	if (suite == "seq" || suite == "forced") && rolled {
+		timerSeen++
+		if timerSeen%3 == 0 {
+			o.Count("timer:from-" + suite)
+			o.Case("timer", coqTimer(k), k, true)
 		}
 	}
 }
@@ -510,6 +544,7 @@ func main() {
 	o.DeclareSuite("forced", "From Verif Require Import C10.Model.", "case", "run_case")
 	o.DeclareSuite("plugin", "From Verif Require Import C10.Model C10.Plugin.", "case_plugin", "run_plugin")
 	o.DeclareSuite("atomic", "From Verif Require Import C10.Model C10.Split.", "case_atomic", "run_atomic")
+	o.DeclareSuite("timer", "From Verif Require Import C10.Model.", "case_timer", "run_timer")
 	o.Rule("seq: random sequential mock-clock histories (quota 1-3, queue size 1-4, windows 1 us/250 ms/1 s, " +
 		"arrivals with priorities 0-2 and TTLs around the window size, instants on boundary-1/boundary/boundary+1 and " +
 		"TTL deadline +-1, timers fired in deadline order), a quarter of them through StrategyBasedQueuePlugin.OnRequest; " +
@@ -522,6 +557,8 @@ func main() {
 		"parameters, a remedy without configuration): online histories with bursts, clock advances to boundary-1/boundary/" +
 		"boundary+1 and TTL deadline +-1, and forced interleavings in which the first request of a remedy is held inside " +
 		"the queue factory while others arrive (every order of build/enqueue steps for 2-3 first requests, plus random ones); " +
+		"timer: every third seq/forced history with a roll-over pass again, observable = the deadline of the timer the " +
+		"roll-over goroutine re-arms after each pass (model: next_tick = window end after the Tick); " +
 		"non-trivial (plugin) = somebody waited, somebody was released by a roll-over and somebody was refused, or a " +
 		"request really was blocked behind / concurrent with a queue construction")
 	var raw json.RawMessage
@@ -576,6 +613,13 @@ func main() {
 	}
 	if enough() {
 		o.Note("generation stopped early: more than 400 monitor hits outside the known findings")
+	}
+	if probeMissed > 0 {
+		// no silent degradation of suite atomic to plain Enqueues
+		panic(fmt.Sprintf("C10 harness: suite atomic can no longer probe the locked part of Enqueue: %d probed request(s) "+
+			"went to the queue without standing on the trace line %q between the admission decision and heap.Push "+
+			"(the line was removed, moved behind the push or is no longer logged through the injected logger); "+
+			"the atomicity of EnqLocked is then an unchecked modelling assumption", probeMissed, pushLine))
 	}
 	o.Finish()
 }
